@@ -386,11 +386,16 @@ def gen_forall(rng, w, scope, depth=1, numeric=True, equality=True, **kw):
 def gen_simple_effect(rng, w, scope, numeric=True, must_mention=None, **kw):
     if numeric and w.funcs and rng.random() < 0.35:
         tgt = None
+        summing = must_mention and rng.random() < 0.3
         for _ in range(4):
             tgt = gen_fluent_term(rng, w, scope, use_constants=0.0)
-            if tgt is None or not must_mention or must_mention in tgt:
+            if tgt is None or not must_mention or (must_mention in tgt) != bool(summing):
                 break
             tgt = None
+        if tgt and summing:
+            # the summing idiom: every instance of the quantified effect adds to one and the same fluent
+            term = gen_fluent_term(rng, w, scope, must_mention=must_mention, use_constants=0.0) or "1"
+            return [rng.choice(["increase", "decrease"]), tgt, term]
         if tgt:
             op = rng.choice(["assign", "increase", "decrease"])
             return [op, tgt, gen_num_expr(rng, w, scope, rng.choice([0, 1, 1]), in_effect=True, **kw)]
@@ -684,10 +689,11 @@ def features_of(tree) -> set:
 
 
 def statically_consistent(eff) -> bool:
-    """no function name is the target of two numeric effects and no predicate name is both added and
-    deleted anywhere in the effect (a syntactic, conservative guarantee that no two simultaneously
-    firing effects can be inconsistent, for workloads that must stay inside C03's quantifier)"""
-    targets, added, deleted = [], set(), set()
+    """no function name is the target of two numeric effects unless all of them are increase / decrease (additive effects
+    accumulate), and no predicate name is both added and deleted anywhere in the effect (a syntactic, conservative
+    guarantee that no two simultaneously firing effects can be inconsistent, for workloads that must stay inside C03's
+    quantifier)"""
+    targets, added, deleted = {}, set(), set()
 
     def go(e):
         if not isinstance(e, list) or not e:
@@ -701,14 +707,14 @@ def statically_consistent(eff) -> bool:
         elif h == "forall":
             go(e[2])
         elif h in ("assign", "increase", "decrease", "scale-up", "scale-down"):
-            targets.append(e[1][0])
+            targets.setdefault(e[1][0], []).append(h)
         elif h == "not":
             deleted.add(e[1][0])
         else:
             added.add(h)
 
     go(eff)
-    return len(targets) == len(set(targets)) and not (added & deleted)
+    return all(len(ops) == 1 or all(o in ("increase", "decrease") for o in ops) for ops in targets.values()) and not (added & deleted)
 
 
 # ------------------------------------------------------------------------------------------
